@@ -47,10 +47,29 @@ ConcOK(ev, fin) ==
     \A k \in Keys :
         /\ Max(base[k].a, Bound(ev, k, "a", "lo")) <= fin[k].a /\ fin[k].a <= Max(base[k].a, Bound(ev, k, "a", "hi"))
         /\ Max(base[k].d, Bound(ev, k, "d", "lo")) <= fin[k].d /\ fin[k].d <= Max(base[k].d, Bound(ev, k, "d", "hi"))
+(* C13 under concurrent merges (payloads arriving over several links at once, the same payload possibly twice): every
+   time a Merge hands back as new is a time of ITS payload that exceeds what the replica held before; no time is
+   handed back as new by two merges; the newest merged time, if it beats the old state and every local write, is
+   handed back by one of them (the update that changed the state is relayed onward, once) *)
+DeltasOK(ev) ==
+    LET n == Len(ev.merged) IN
+    /\ Len(ev.deltas) = n
+    /\ \A i \in 1..n, k \in Keys :
+          /\ ev.deltas[i][k].a \in {0, ev.merged[i][k].a} /\ (ev.deltas[i][k].a # 0 => ev.deltas[i][k].a > st[ev.r][k].a)
+          /\ ev.deltas[i][k].d \in {0, ev.merged[i][k].d} /\ (ev.deltas[i][k].d # 0 => ev.deltas[i][k].d > st[ev.r][k].d)
+    /\ \A i, j \in 1..n, k \in Keys : i # j =>
+          /\ ~(ev.deltas[i][k].a # 0 /\ ev.deltas[i][k].a = ev.deltas[j][k].a)
+          /\ ~(ev.deltas[i][k].d # 0 /\ ev.deltas[i][k].d = ev.deltas[j][k].d)
+    /\ \A k \in Keys :
+          LET ma == JoinSeq(ev.merged)[k].a
+              md == JoinSeq(ev.merged)[k].d IN
+          /\ (ma > st[ev.r][k].a /\ ma > Bound(ev, k, "a", "hi")) => \E i \in 1..n : ev.deltas[i][k].a = ma
+          /\ (md > st[ev.r][k].d /\ md > Bound(ev, k, "d", "hi")) => \E i \in 1..n : ev.deltas[i][k].d = md
 TrConc == IsEvent("conc") /\
     LET ev  == Log[l]
         fin == [k \in Keys |-> [a |-> ev.obs.v[ev.r][k].a, d |-> ev.obs.v[ev.r][k].d]]
     IN  /\ ConcOK(ev, fin)
+        /\ (Has(ev, "deltas") => DeltasOK(ev))
         /\ st'   = [st EXCEPT ![ev.r] = fin]
         /\ seen' = [seen EXCEPT ![ev.r] = @ \cup Updates(JoinSeq(ev.merged)) \cup Updates(fin)]
         /\ UNCHANGED msgs
